@@ -261,11 +261,40 @@ func (x *Exec) callByContract(st *State, fr *Frame, callee *ssa.Function, fc *Fu
 		}
 		x.oblige(st, "pre@"+short+fmt.Sprintf("#%d", ord), label, props, g, where, r.Src)
 	}
+	// named snapshots of the caller's contract taken at this call site
+	if x.fc != nil && len(x.fc.Snapshots) > 0 && len(st.frames) <= 2 && st.frames[0].Fn == x.fn {
+		site := fmt.Sprintf("%s#%d", short, ord)
+		site2 := site
+		if fr.Fn != x.fn {
+			via := shortCallee(x.P.FuncName(fr.Fn))
+			site2 = via + "." + site
+			if ci := fr.CallInst; ci != nil {
+				site = fmt.Sprintf("%s#%d.%s", via, x.siteOrdinal(st.frames[0].Fn, ci, via), site)
+			} else {
+				site = site2
+			}
+		}
+		for _, sn := range x.fc.Snapshots {
+			if sn.At == site || sn.At == site2 {
+				cenv := x.envFor(st, x.entry, st.frames[0])
+				v := x.eval(cenv, sn.Expr)
+				ns := map[string]*Value{}
+				for k, vv := range st.snaps {
+					ns[k] = vv
+				}
+				ns[sn.Label] = v
+				st.snaps = ns
+			}
+		}
+	}
 	// call-site assertions of the caller's contract
 	if x.fc != nil && fr.Fn == x.fn {
 		for _, a := range x.fc.Asserts {
 			if a.At == fmt.Sprintf("%s#%d", short, ord) || a.At == short {
 				cenv := x.envFor(st, x.entry, fr)
+				for k, v := range st.snaps {
+					cenv.vars["$"+k] = v
+				}
 				for k, v := range env.vars {
 					cenv.vars["$"+k] = v
 				}
@@ -276,9 +305,16 @@ func (x *Exec) callByContract(st *State, fr *Frame, callee *ssa.Function, fc *Fu
 	// ... and assertions about calls made by a contract-less helper inlined into it: `at helper.callee#n`
 	if x.fc != nil && fr.Fn != x.fn && len(st.frames) == 2 && st.frames[0].Fn == x.fn {
 		via := shortCallee(x.P.FuncName(fr.Fn))
+		specific := ""
+		if ci := fr.CallInst; ci != nil {
+			specific = fmt.Sprintf("%s#%d.%s#%d", via, x.siteOrdinal(st.frames[0].Fn, ci, via), short, ord)
+		}
 		for _, a := range x.fc.Asserts {
-			if a.At == fmt.Sprintf("%s.%s#%d", via, short, ord) {
+			if a.At == fmt.Sprintf("%s.%s#%d", via, short, ord) || (specific != "" && a.At == specific) {
 				cenv := x.envFor(st, x.entry, st.frames[0])
+				for k, v := range st.snaps {
+					cenv.vars["$"+k] = v
+				}
 				for k, v := range env.vars {
 					cenv.vars["$"+k] = v
 				}
